@@ -256,7 +256,9 @@ def run_unit(component, seed, count, tag=''):
 # monitor failure code -> properties it speaks about (see coq/theories/MonWire.v, MonApp.v)
 def code_props(code):
     table = {1302: ['C13', 'C08'], 1307: ['C13', 'C06'], 1313: ['C13', 'C11'], 1315: ['C13', 'C11'], 1103: ['C11', 'C13'],
-             602: ['C06', 'C05'], 603: ['C06', 'C05'], 901: ['C09', 'C15'], 1104: ['C11'], 1105: ['C11']}
+             602: ['C06', 'C05'], 603: ['C06', 'C05'], 901: ['C09', 'C15'], 1104: ['C11'], 1105: ['C11'],
+             811: ['C08', 'C09'], 812: ['C09', 'C10', 'C03'], 813: ['C08', 'C10'], 814: ['C08'], 815: ['C08', 'C09'], 816: ['C09', 'C03', 'C08'],
+             821: ['C09'], 822: ['C09', 'C07']}
     if code in table:
         return table[code]
     return ['C%02d' % (code // 100)]
@@ -333,11 +335,27 @@ def run_sim(family, seed, count, scenario_file=None, keep_trace=False):
         dt += dt1
         if os.path.exists(trace):
             txt = open(trace, errors='replace').read()
+            ns = sum(1 for l in txt.split('\n') if l.startswith('S '))
+            nx = sum(1 for l in txt.split('\n') if l.startswith('X '))
+            if ns > nx:
+                # the process died inside a scenario (e.g. the bubble panicked on exit because library
+                # goroutines were left blocked, or a panic on a library goroutine): close it by hand
+                last = [l for l in txt.split('\n') if l.startswith('S ')][-1].split(' ')[1]
+                why = 'panic' if 'panic: ' in o and 'deadlock: all goroutines in bubble are blocked' not in o else 'leak'
+                tail = ' | '.join(x.strip() for x in o.split('\n') if 'grpctunnel' in x)[:1500]
+                if not txt.endswith('\n'):
+                    txt += '\n'
+                txt += 'X %s %s %s\n' % (last, why, tail)
+                nx += 1
             parts.append(txt)
-            skip += sum(1 for l in txt.split('\n') if l.startswith('X '))
-        if rc == 3 and hangs < 4:
+            skip += nx
+            if ns > nx - 0 and False:
+                pass
+        if (rc == 3 or (rc != 0 and os.path.exists(trace))) and hangs < 6:
+            died = rc != 0
             hangs += 1
-            continue
+            if died and skip < (count if not scenario_file else 10 ** 6):
+                continue
         break
     if parts:
         open(trace, 'w').write(''.join(parts))
